@@ -330,9 +330,12 @@ func main() {
 		budget *= 20
 	}
 	t0 := time.Now()
-	// 1. forced families (deterministic, exhaustive over small thread orders)
+	// 1. forced families (deterministic, exhaustive over small thread orders). Without a model
+	// (`--drv ""`: the proof or a regenerated fact no longer checks) the real-time families of the
+	// thorough tier run as well: bin/check only starts a separate search when no violation (not
+	// even a known one) was reported.
 	only := os.Getenv("C13_ONLY")
-	for _, c := range forcedCases(fl.Tier == "thorough" || fl.Search) {
+	for _, c := range forcedCases(fl.Tier == "thorough" || fl.Search || fl.Drv == "") {
 		if only != "" && c.Prim != only {
 			continue
 		}
